@@ -166,3 +166,9 @@ def run(ctx):
             ok = (bb.lo is not None and bb.lo >= 1) or ('!=', '0') in bb.lbs
             ctx.ob('INIT-VALIDATE', '%s:%s#%d' % (g.name, g.s(d)[:40], k), ok, g.loc(n), 'divisor %s %s' % (g.s(d), 'proven >= 1 (%s..%s)' % (bb.lo, bb.hi) if ok else 'NOT proven non-zero (%r)' % bb), None)
     ctx.require(ninit >= 3, 'only %d geometry divisions by caller-supplied values found in init functions' % ninit)
+
+    ctx.rule('SIZEOF-MATCH', 'every sized copy (snprintf, psf_strlcpy, strncpy, memcpy, memset ...) whose size argument is sizeof (object) names the object it writes to '
+             '(a sizeof of a different, smaller or larger, member type-checks and truncates or overflows silently)', floor=60)
+    from engine.sizeofrule import sizeof_match
+    sizeof_match(ctx, prog)
+
